@@ -461,6 +461,14 @@ def r8_structure(a, tier):
          {'__class__': 'JSONBase', 'token': 't', 'sub': {'__class__': 'JSONBase', 'token': 'u'}, 'items': [{'__class__': 'JSONBase', 'token': 'u'}, [1, 2]]}),
         ('an object without a JSON protocol', object(), '<repr>'),
     ]
+    # every scalar a parse result can hold (constants are literal_eval'ed: complex, bytes, Ellipsis ...; actions return anything)
+    for sc in (1j, 2 + 3j, b'ab', bytearray(b'c'), ..., frozenset({1}), 1.5, float('inf'), True, None):
+        got = enc(sc)
+        okj = jsonable(got)
+        rep.add({'asjson_of_scalar': repr(sc), 'gives': repr(got)[:60], 'json_dumpable': okj})
+        if not okj:
+            rep.fail(ajo.qualname, f'encode-scalar:{type(sc).__name__}', f'asjson of the {type(sc).__name__} value {sc!r} gives {got!r}, which the json module cannot dump '
+                     f'(a constant such as `1j`, or an action returning such a value, is a legitimate parse result)', ajo.loc)
     for what, value, want in cases:
         got = enc(value)
         ok = got == want and jsonable(got)
